@@ -58,7 +58,9 @@ func (r *KeyRing) copyKey(other *asn1.Key) (*asn1.Key, error) {
 	if other.ValidSince.After(other.ValidUntil) {
 		return nil, api.ErrInvalidCryptoperiod
 	}
-	if len(other.Data) == 0 {
+	// A destroyed key legitimately has no data left (see txDestroyKeyData): it is copied
+	// as a marker so that the key ring keeps its history. Any other key must have data.
+	if len(other.Data) == 0 && other.State != asn1.KeyDestroyed {
 		return nil, api.ErrNoKeyData
 	}
 	key := *other
